@@ -23,9 +23,11 @@ meet at the notion of a *good body* — a packet body that is a concatenation of
 * receiver, every history (`delivered_were_sent`): if the body of every packet it is given is a good body with respect to `sent`
   — in any order, with any duplication and any loss, interleaved with its own sends — then every bunch of every callback it ever
   makes looks like a bunch in `sent`.
-What connects the halves is that the network does not alter datagrams, plus the framing and header round trips of C11
-(`framing_round_trip`, `header_round_trip`): the receiver strips exactly the two headers the sender wrote.  Forged datagrams are
-outside (the protocol does not authenticate data packets).
+`wire_to_body` shows that the receiving endpoint takes such a datagram apart into exactly the packet header and body the sender
+wrote, and `link_integrity` puts the pieces together: **if the receiver is fed only datagrams the sender emitted — in any order, with
+any duplication and any loss — every bunch it ever hands to its application looks like a bunch the sender's application handed to
+`utcp_send_bunch`.**  The only assumption is the one the property itself makes: the network does not alter or forge datagrams (the
+protocol does not authenticate data packets).
 -/
 namespace Utcp.Props.C04
 open Utcp Utcp.Gen
@@ -114,42 +116,47 @@ theorem sentOf_mono (ops : List (Env × C18.Op)) : ∀ sent x, x ∈ sent → x 
     | recv bits => exact ih _ x hx
     | update => exact ih _ x hx
 
-theorem adds_mono_sent {sent sent' : List Bunch} {c c' : Conn} (h : Adds (EP sent) c c') (hs : ∀ b ∈ sent, b ∈ sent') : Adds (EP sent') c c' :=
+theorem adds_mono_sent {mb mg : Nat} {sent sent' : List Bunch} {c c' : Conn} (h : Adds (EP mb mg sent) c c') (hs : ∀ b ∈ sent, b ∈ sent') : Adds (EP mb mg sent') c c' :=
   h.mono (fun _ hev => hev.mono hs)
 
-/-- **sender**: over every history of sends (valid or not), flushes, incoming packets (any bits: ACKs, NAKs, garbage) and updates, the
-send buffer and every retransmission record stay good bodies, and every datagram emitted carries a good body — with respect to the
-bunches handed to `utcp_send_bunch` so far -/
-theorem sender_run (ops : List (Env × C18.Op)) : ∀ (c : Conn) (sent : List Bunch), EInv sent c →
-    EInv (sentOf ops sent) (C18.run c ops) ∧ Adds (EP (sentOf ops sent)) c (C18.run c ops) := by
+/-- **sender**: over every history of sends (valid or not), flushes, incoming packets (any bits: ACKs, NAKs, garbage) and updates — under
+a fixed magic-header configuration `(mb, mg)` — the send buffer and every retransmission record stay good bodies, the packet header
+stays a well-formed header encoding, and every datagram emitted is `outgoing header ++ well-formed packet header ++ good body ++
+terminators`, with respect to the bunches handed to `utcp_send_bunch` so far -/
+theorem sender_run (mb mg : Nat) (ops : List (Env × C18.Op)) : ∀ (c : Conn) (sent : List Bunch), EInv sent c →
+    (∀ p ∈ ops, p.1.magicBits = mb ∧ p.1.magic = mg) →
+    EInv (sentOf ops sent) (C18.run c ops) ∧ Adds (EP mb mg (sentOf ops sent)) c (C18.run c ops) := by
   induction ops with
-  | nil => intro c sent h; exact ⟨h, Adds.refl _ _⟩
+  | nil => intro c sent h _; exact ⟨h, Adds.refl _ _⟩
   | cons p rest ih =>
-    intro c sent h
+    intro c sent h hall
     obtain ⟨e, op⟩ := p
+    have he := hall (e, op) List.mem_cons_self
+    have hrest : ∀ q ∈ rest, q.1.magicBits = mb ∧ q.1.magic = mg := fun q hq => hall q (List.mem_cons_of_mem _ hq)
     cases op with
     | send b =>
-      obtain ⟨s1, s2⟩ := sendBunch_einv sent e c b h
-      obtain ⟨r1, r2⟩ := ih _ (b :: sent) s1
+      obtain ⟨s1, s2⟩ := sendBunch_einv sent e he c b h
+      obtain ⟨r1, r2⟩ := ih _ (b :: sent) s1 hrest
       exact ⟨r1, (adds_mono_sent s2 (sentOf_mono rest (b :: sent))).trans r2⟩
     | flush =>
-      obtain ⟨s1, s2⟩ := flush_einv sent e c h
-      obtain ⟨r1, r2⟩ := ih _ sent s1
+      obtain ⟨s1, s2⟩ := flush_einv sent e he c h
+      obtain ⟨r1, r2⟩ := ih _ sent s1 hrest
       exact ⟨r1, (adds_mono_sent s2 (sentOf_mono rest sent)).trans r2⟩
     | recv bits =>
-      obtain ⟨s1, s2⟩ := receivedPacket_einv sent e c bits h
-      obtain ⟨r1, r2⟩ := ih _ sent s1
+      obtain ⟨s1, s2⟩ := receivedPacket_einv sent e he c bits h
+      obtain ⟨r1, r2⟩ := ih _ sent s1 hrest
       exact ⟨r1, (adds_mono_sent s2 (sentOf_mono rest sent)).trans r2⟩
     | update =>
-      obtain ⟨s1, s2⟩ := update_einv sent e c h
-      obtain ⟨r1, r2⟩ := ih _ sent s1
+      obtain ⟨s1, s2⟩ := update_einv sent e he c h
+      obtain ⟨r1, r2⟩ := ih _ sent s1 hrest
       exact ⟨r1, (adds_mono_sent s2 (sentOf_mono rest sent)).trans r2⟩
 
-/-- … in particular, for a freshly initialised connection: every datagram in the log has the form headers ++ good body ++ terminators -/
-theorem sender_emits_only_sent (ops : List (Env × C18.Op)) (i o : Int) (d : List UInt8)
+/-- … in particular, for a freshly initialised connection: every datagram in the log has that form -/
+theorem sender_emits_only_sent (mb mg : Nat) (ops : List (Env × C18.Op)) (hall : ∀ p ∈ ops, p.1.magicBits = mb ∧ p.1.magic = mg) (i o : Int) (d : List UInt8)
     (hd : Event.out d ∈ (C18.run (({} : Conn).seqInit i o) ops).log) :
-    ∃ (e : Env) (s cl : Nat) (N body : Bits), d = bitsToBytes (outgoingHeader e s cl false ++ N ++ body ++ [true, true]) ∧ GoodBody (sentOf ops []) body := by
-  obtain ⟨_, new, hlog, hnew⟩ := sender_run ops (({} : Conn).seqInit i o) [] (fresh_einv _ rfl rfl)
+    ∃ (e : Env) (s cl : Nat) (hh : NotifHeader) (body : Bits), (e.magicBits = mb ∧ e.magic = mg) ∧ C11.WFHeader hh ∧
+      d = bitsToBytes (outgoingHeader e s cl false ++ encodeNotifHeader hh ++ body ++ [true, true]) ∧ GoodBody (sentOf ops []) body := by
+  obtain ⟨_, new, hlog, hnew⟩ := sender_run mb mg ops (({} : Conn).seqInit i o) [] (fresh_einv _ rfl rfl (seqInit_hinv _ _ _ rfl)) hall
   rw [hlog] at hd
   rcases List.mem_append.mp hd with hd | hd
   · exact hnew _ hd d rfl
@@ -239,5 +246,67 @@ theorem wire_to_body (e : Env) (s cl : Nat) (h : NotifHeader) (wf : C11.WFHeader
       rw [List.dropLast_concat]
     rw [this]
     exact C11.header_round_trip h wf body
+
+/-- what the receiving endpoint hands to `ReceivedPacket` for a data datagram `d` (`utcp_incoming`: strip the terminator, the outgoing
+header, the connection-level terminator) -/
+def wireBits (e : Env) (d : List UInt8) : Option Bits :=
+  match readInit d with
+  | none => none
+  | some bits =>
+    match readOutgoingHeader e bits with
+    | .ok (_, _, false) rest => some rest.dropLast
+    | _ => none
+
+/-- a receiver's history in which every packet is (the `ReceivedPacket` input for) a datagram the sender `S` emitted — in any order, any
+number of times, or never -/
+def FromLink (S : Conn) : List (Env × C01.Op) → Prop
+  | [] => True
+  | (e, .recv bits) :: rest => (∃ d, Event.out d ∈ S.log ∧ wireBits e d = some bits) ∧ FromLink S rest
+  | _ :: rest => FromLink S rest
+
+/-- **end to end.**  `S` is any sender state reached from `utcp_sequence_init` by any history; the receiver is fed, in any order and with
+any duplication or loss, only datagrams that `S` emitted (both ends under the magic-header configuration `(mb, mg)`, which fits its
+width), interleaved with its own sends and flushes.  Then every bunch of every callback the receiver makes looks — flags, channel, close
+reason, name index, payload — like a bunch that the sender's application handed to `utcp_send_bunch`. -/
+theorem link_integrity (mb mg : Nat) (hfit : mg < 2 ^ mb) (opsS : List (Env × C18.Op)) (hS : ∀ p ∈ opsS, p.1.magicBits = mb ∧ p.1.magic = mg) (iS oS : Int)
+    (opsR : List (Env × C01.Op)) (hR : ∀ p ∈ opsR, p.1.magicBits = mb ∧ p.1.magic = mg) (iR oR : Int)
+    (hlink : FromLink (C18.run (({} : Conn).seqInit iS oS) opsS) opsR)
+    (g : List Bunch) (hg : Event.recv g ∈ (C01.run (({} : Conn).seqInit iR oR) opsR).log) :
+    ∀ q ∈ g, ∃ b ∈ sentOf opsS [], seen q = seen b := by
+  refine delivered_were_sent (sentOf opsS []) opsR iR oR ?_ g hg
+  -- every packet offered has a good body
+  have key : ∀ (ops : List (Env × C01.Op)), (∀ p ∈ ops, p.1.magicBits = mb ∧ p.1.magic = mg) →
+      FromLink (C18.run (({} : Conn).seqInit iS oS) opsS) ops → Offered (sentOf opsS []) ops := by
+    intro ops
+    induction ops with
+    | nil => intro _ _; trivial
+    | cons p rest ih =>
+      intro hall hl
+      obtain ⟨e, op⟩ := p
+      have he := hall (e, op) List.mem_cons_self
+      have hrest : ∀ q ∈ rest, q.1.magicBits = mb ∧ q.1.magic = mg := fun q hq => hall q (List.mem_cons_of_mem _ hq)
+      cases op with
+      | send b => exact ih hrest hl
+      | flush => exact ih hrest hl
+      | recv bits =>
+        simp only [FromLink] at hl
+        obtain ⟨⟨d, hd, hw⟩, hl'⟩ := hl
+        refine ⟨?_, ih hrest hl'⟩
+        obtain ⟨e', s, cl, hh, body, he', wf, hform, hgood⟩ := sender_emits_only_sent mb mg opsS hS iS oS d hd
+        -- the receiver's environment has the sender's magic configuration, so its parse of `d` yields exactly header and body
+        have henv : outgoingHeader e' s cl false = outgoingHeader e s cl false := by
+          unfold outgoingHeader; rw [he'.1, he'.2, he.1, he.2]
+        rw [henv] at hform
+        obtain ⟨w1, w2, w3⟩ := wire_to_body e s cl hh wf body (by rw [he.1, he.2]; exact hfit)
+        have hbits : bits = (encodeNotifHeader hh ++ body ++ [true]).dropLast := by
+          unfold wireBits at hw
+          rw [hform, w1] at hw
+          simp only [w2] at hw
+          exact (Option.some.inj hw).symm
+        intro hd' body' hdec
+        rw [hbits, w3] at hdec
+        cases hdec
+        exact hgood
+  exact key opsR hR hlink
 
 end Utcp.Props.C04
